@@ -782,7 +782,7 @@ pub fn prop() -> Prop {
         id: ID,
         rule: "propositional formulas over <= 4 atoms whose truth is controlled by the document (existence with falsy values, comparison, match(), root flag via $, nested filter queries, count()); \
                the document holds one child per valuation, so every query is checked on its whole truth table; all formulas with <= 3 connectives over 3 atoms exhaustively, random deeper ones, \
-               minimal and redundant parentheses, children of arrays and of objects; plus random two/three-level filters where confusing the inner and outer `@` or `$` changes the answer. \
+               minimal and redundant parentheses, children of arrays and of objects; plus random two/three-level filters where confusing the inner and outer `@` or `$` changes the answer, and two or three filter selectors in one bracketed selection (`[?f, ?g]` = kept by f, then kept by g). \
                Non-trivial: >= 2 connectives or a negation or a nested-filter atom, and neither a tautology nor a contradiction on the table. Distinct by (query text, document).",
         assumptions: vec![
             "expected result = plain Boolean evaluation of the formula per valuation (no interpreter involved), cross-checked with the reference evaluator",
